@@ -2,6 +2,8 @@ mod b64;
 mod backends;
 mod drive_paserk;
 mod drive_tokens;
+mod eval;
+mod obs_terms;
 mod keys;
 mod obs_b64;
 mod obs_cjson;
@@ -37,6 +39,13 @@ fn main() {
             println!("lines={}", rec.finish());
         }
         "gen-fixtures" => keys::gen_fixtures(),
+        "obs-terms" => {
+            let mut rec = Recorder::create(&out);
+            let kinds: Vec<String> = arg(&args, "--kinds").unwrap_or_else(|| "local,public,pie,pw,pke,keyid".into()).split(',').map(|x| x.to_string()).collect();
+            std::panic::set_hook(Box::new(|_| {}));
+            let n = obs_terms::run(&mut rec, &arg(&args, "--cases").expect("--cases"), thorough, seed, &kinds);
+            println!("{}", serde_json::json!({"lines": rec.finish(), "records": n}));
+        }
         "obs-cjson" => {
             let mut rec = Recorder::create(&out);
             obs_cjson::run(&mut rec, thorough, seed);
